@@ -364,9 +364,36 @@ def run_op(op, classes):
     size = getattr(type(leaf), "_" + fname).size
     exc = None
 
+    class _ViewBoom(Exception):
+        pass
+
+    view = None
+    vm = op.get("view")
+    if vm and key is not None:
+        # the bound array view (what `msg.arr` returns) is obtained under ANOTHER validation state than the one
+        # in force at the store: the state at the store must decide
+        if vm == "off-normal":
+            with disable_message_validation():
+                view = getattr(leaf, fname)
+        elif vm == "off-nested":
+            with disable_message_validation():
+                with disable_message_validation():
+                    view = getattr(leaf, fname)
+        elif vm == "off-exc":
+            try:
+                with disable_message_validation():
+                    view = getattr(leaf, fname)
+                    raise _ViewBoom()
+            except _ViewBoom:
+                pass
+        else:   # "on": taken with validation on (used inside a disable block when enabled is false)
+            view = getattr(leaf, fname)
+
     def do():
         if key is None:
             setattr(leaf, fname, val)
+        elif view is not None:
+            view[key] = val
         else:
             getattr(leaf, fname)[key] = val
 
